@@ -12,12 +12,14 @@ def summarize(out):
     ok = re.findall(r"test result: (\w+)\. (\d+) passed; (\d+) failed", out)
     return ok
 for pid in sys.argv[1:]:
-    wt = f"/tmp/seed/wt-{pid}"; od = f"/tmp/seed/out-{pid}"
+    PFX = os.environ.get("SEED_ROUND", "")          # "" first round, "2" hard-mode round
+    wt = f"/tmp/seed/wt{PFX}-{pid}"; od = f"/tmp/seed/out{PFX}-{pid}"
     for i in (1, 2, 3):
         patch = f"{od}/patch{i}.diff"
         if not os.path.exists(patch): continue
-        dest = f"/verif/seeded/{pid}-{i}"
-        rec = {"id": f"{pid}-{i}", "property": pid, "ran": []}
+        tag = f"{pid}-{'h' if PFX else ''}{i}"
+        dest = f"/verif/seeded/{tag}"
+        rec = {"id": tag, "property": pid, "round": ("hard mode (second round)" if PFX else "first round"), "ran": []}
         try: rec.update(json.load(open(f"{od}/meta{i}.json")))
         except Exception as e: rec["meta_error"] = str(e)
         sh("git checkout -- . && git clean -fdq -e target", cwd=wt)
@@ -77,4 +79,4 @@ for pid in sys.argv[1:]:
         os.makedirs(dest, exist_ok=True)
         shutil.copy(patch, f"{dest}/patch.diff"); shutil.copy(f"{od}/demo{i}.rs", f"{dest}/demo.rs")
         json.dump(rec, open(f"{dest}/meta.json", "w"), indent=1)
-        print(f"{pid}-{i}: confirmed={valid} suite={rec['existing_suite_with_patch']} own-check={'CAUGHT' if pid in rec.get('caught_by', []) else 'MISSED'} caught_by={rec.get('caught_by')}", flush=True)
+        print(f"{tag}: confirmed={valid} suite={rec['existing_suite_with_patch']} own-check={'CAUGHT' if pid in rec.get('caught_by', []) else 'MISSED'} caught_by={rec.get('caught_by')}", flush=True)
